@@ -26,12 +26,13 @@ CONSTANTS MaxBlocks,      \* 1..3
           CfiLayouts,     \* subset of {"none","proc_all","proc_each","proc_rs"}
           Isa,            \* "x64" | "ia32" | "arm64": instruction sizes of the rendered module
           WithScopes,     \* BOOLEAN: generate register_insert(AllBlocksScope(ENTRY), ..) requests
+          Retargets,      \* BOOLEAN subset: also retarget_symbol_uses(target symbol -> another block's symbol)
           AlignOpts,      \* subset of {0, 4, 16}: alignment aux data on the first block (0 = none)
           InsFns,         \* subset of {"none", "ret", "loop"}: register_insert_function("newfn", ..)
           Emit            \* BOOLEAN: print cases
 
-VARIABLES shape, reqs, insfn
-vars == <<shape, reqs, insfn>>
+VARIABLES shape, reqs, insfn, rt
+vars == <<shape, reqs, insfn, rt>>
 
 (***************************************************************************)
 (* Block templates: unit sequences.  "X" is replaced by the target symbol. *)
@@ -310,8 +311,19 @@ AbsTrace == [pre |-> AbsState(shape), reqs |-> TraceReqs(AbsState(shape), reqs),
 (***************************************************************************)
 (* Behaviour                                                               *)
 (***************************************************************************)
+\* old = the symbol the shape's control transfers / references name; new = the start
+\* symbol of another code block
+RetargetOf(sh) ==
+  LET bs == sh.sections[1].blocks
+      users == {<<i, j>> \in UNION {{<<i, j>> : j \in DOMAIN bs[i].units} : i \in DOMAIN bs} :
+                  bs[i].units[j][1] \in {"jmp", "jcc", "call", "ref", "dq"}}
+      olds == {bs[u[1]].units[u[2]][2] : u \in users}
+      old == IF olds = {} THEN "" ELSE CHOOSE x \in olds : TRUE
+      cands == {i \in DOMAIN bs : bs[i].kind = "code" /\ bs[i].syms # <<>> /\ bs[i].syms[1] # old}
+  IN  IF old = "" \/ cands = {} THEN <<>>
+      ELSE <<old, bs[CHOOSE i \in cands : \A k \in cands : i <= k].syms[1]>>
 CaseJson ==
-  [shape |-> shape, insfn |-> insfn,
+  [shape |-> shape, insfn |-> insfn, retarget |-> IF rt THEN RetargetOf(shape) ELSE <<>>,
    reqs |-> [q \in 1..Len(reqs) |->
                [op |-> reqs[q].op, sec |-> 0, blk |-> IF reqs[q].op = "insall" THEN 0 ELSE reqs[q].blk - 1, off |-> reqs[q].off,
                 len |-> reqs[q].len, proxy |-> reqs[q].proxy,
@@ -321,11 +333,12 @@ CaseJson ==
 Init == /\ shape \in {MkShape(p) : p \in ShapeParams}
         /\ reqs = <<>>
         /\ insfn \in InsFns
+        /\ rt \in {r \in Retargets : r => RetargetOf(shape) # <<>>}
 Next == /\ Len(reqs) < MaxReqs
         /\ \E r \in Candidates(shape) \cup ScopeCandidates :
               /\ Compatible(reqs, r)
               /\ reqs' = Append(reqs, r)
-        /\ UNCHANGED <<shape, insfn>>
+        /\ UNCHANGED <<shape, insfn, rt>>
 Spec == Init /\ [][Next]_vars
 
 EmitCase == Emit => PrintT("CASE " \o ToJson(CaseJson))
